@@ -1040,7 +1040,9 @@ def struct_c_line(typ, a, F=1):
         out = []
         for i in range(max(rows, 0)):
             for j in range(max(cols, 0)):
-                v = (1.0 if (i == j or is_col(typ)) else 0.0) if ident_ else 0.25 + 0.125 * i - 0.0625 * j
+                # cells of the B (M) matrix carry the tags 1, 2, .. by rows (a = identity / ones): the dump of
+                # harness/calcore_e2e.c then shows the B cell -> M cell map of _vnacal_new_add_common
+                v = (1.0 if (i == j or is_col(typ)) else 0.0) if ident_ else float(1 + i * max(cols, 0) + j)
                 out.append(" ".join("%s %s" % (hx(v), hx(0.0)) for _ in range(F)))
         return " ".join(out)
     if a["ab"]:
